@@ -334,6 +334,22 @@ def oracle_ss(case, R):
     R.check(Z.h == h, "c2d_h")
     S2 = Z.d2c(method=method, prewarp=pw)
     Z2 = S2.c2d(h, method=method, prewarp=pw)
+    # every converted model records how it was made ("For discrete or continuous models ... the method used to
+    # convert from the other form", "... the prewarp frequency used in the Tustin transformation"), so that the way
+    # back can be driven by the model's own attributes - pyyeti's own tests use m.d2c(method=m.method,
+    # prewarp=m.prewarp)
+    R.check(S2.h is None and Z2.h == h, "conversion_record_h", f"{S2.h!r} {Z2.h!r}")
+    for nm_, mdl_ in (("c2d", Z), ("d2c", S2), ("c2d_again", Z2)):
+        R.check(mdl_.method == method, "conversion_record_method", f"{nm_}: {mdl_.method!r} for {method}")
+        if method == "tustin":
+            R.check(mdl_.prewarp is not None and float(mdl_.prewarp) == float(pw), "conversion_record_prewarp",
+                    f"{nm_}: prewarp={mdl_.prewarp!r}, converted with {pw!r}")
+    S3 = Z.d2c(method=Z.method, prewarp=Z.prewarp)
+    Z3 = S2.c2d(h, method=S2.method, prewarp=S2.prewarp)
+    for nm in "ABCD":
+        for a, b, kind in ((getattr(S2, nm), getattr(S3, nm), "d2c"), (getattr(Z2, nm), getattr(Z3, nm), "c2d")):
+            e = util.relerr(b, a, max(np.abs(a).max(), 1e-3))
+            R.check(e <= 1e-11, f"{kind}_by_own_attributes_{nm}", f"method={method} prewarp={pw!r} relerr={e:.2e}")
     scale = max(1.0, np.abs(A).max() * h)
     tol = 1e-11      # inverse via eig/log: cond(V) <= ~50, |lambda h| <= 3.5 (observed <= 2e-14)
     for nm in "ABCD":
